@@ -701,7 +701,10 @@ class Evaluator:
             operands = [ev(node.left)] + [ev(c) for c in node.comparators]
             return ("compare", ops, tuple(operands))
         if isinstance(node, ast.Subscript):
-            return ("sub", ev(node.value), self.index(node.slice, p))
+            t = ("sub", ev(node.value), self.index(node.slice, p))
+            if not isinstance(node.slice, ast.Slice):
+                p.effects.append(Effect("subscript", t, node=node, maybe=maybe))
+            return t
         if isinstance(node, ast.Tuple):
             return ("tuple", tuple(self._elts(node.elts, p, maybe)))
         if isinstance(node, ast.List):
